@@ -115,6 +115,13 @@ def ensure_streams(app: appboot.App):
     a = mp4synth.make_track("audio", 48000, [192512, 96256, 192512, 144384, 192512], samples_per_segment=[188, 94, 188, 141, 188],
                             seed=122, track_id=2, sample_durations_in="tfhd")
     mp4synth.register(app, "syn10", "Synthetic default sample durations", {"syn10_v1": v, "syn10_a1": a}, timing_from="syn10_v1")
+    # synbig: two video segments larger than the window the segment loader's BufferedReader caches
+    # (buffersize x max_buffers = 16384 x 30 bytes): 30 buckets + 5000 bytes, and 1.7 MB
+    v = mp4synth.make_track("video", 240, [960] * 4, samples_per_segment=4, seed=131, track_id=1,
+                            payload_bytes=[None, 30 * 16384 + 5000, None, 1_700_000])
+    a = mp4synth.make_track("audio", 48000, [192512, 191488, 192512, 191488], samples_per_segment=[188, 187, 188, 187],
+                            seed=132, track_id=2, sample_durations_in="trun")
+    mp4synth.register(app, "synbig", "Synthetic large segments", {"synbig_v1": v, "synbig_a1": a}, timing_from="synbig_v1")
     # synday: a timing reference longer than a day (timescale 1, ten segments of 9600 s = 26 h 40 min) – durations
     # whose days component is not zero (static manifests only)
     v = mp4synth.make_track("video", 1, [9600] * 10, samples_per_segment=4, seed=111, track_id=1)
